@@ -296,3 +296,133 @@ class ConstructPipeline_contract:
 
     def canary(sh, a, ret):
         check("canary: no loop is ever pipelined", not any(isinstance(o, pipeline.PipelineOp) for e in ret if e[0] == "insert_op" for o in e[1]))
+
+
+# ------------------------------------------------------------------------------------------------------------------
+# PipelineDuplicateBuffers: two copies selected by iteration parity are only enough between ADJACENT stages
+# ------------------------------------------------------------------------------------------------------------------
+from pyvc.api import implies as _implies  # noqa: E402
+from xdsl.ir import Use  # noqa: E402
+
+import snaxc.transforms.pipeline.pipeline_duplicate_buffers as pdb  # noqa: E402
+
+DUP_SHAPES = ([dict(kind="pair", prod=p, cons=c, buf="alloc") for p in range(3) for c in range(4) if p != c]
+              + [dict(kind="pair", prod=0, cons=1, buf="other"), dict(kind="only_out", prod=1, cons=None, buf="alloc"), dict(kind="only_in", prod=None, cons=2, buf="alloc"),
+                 dict(kind="two_readers", prod=0, cons=1, buf="alloc"), dict(kind="from_index", prod=None, cons=1, buf="index")])
+
+
+def build_dup(sh, sym):
+    t = MemRefType(i32, [8], NoneAttr(), StringAttr("L1"))
+    S = 4
+    body = Block([], [IndexType()])
+    ib = Block([], [IndexType()])
+    ib.args[0].den = sym.int("A")
+    y = pipeline.YieldOp(ib.args[0])
+    ib.add_op(y)
+    index_op = pipeline.IndexOp(body.args[0], [IndexType()], Region([ib]))
+    if sh["buf"] == "alloc":
+        alloc = memref.AllocOp.get(i32, 64, [8])
+        buf = alloc.results[0]
+        buf.type = t
+    elif sh["buf"] == "index":
+        alloc = None
+        buf = index_op.results[0]
+    else:
+        alloc = None
+        buf = mk_opresult(None, t)
+    stages = []
+    for s in range(S):
+        ins, outs = [], []
+        if sh["kind"] == "from_index":
+            if s == sh["cons"]:
+                ins = [buf]
+        else:
+            if sh["prod"] is not None and s == sh["prod"]:
+                outs = [buf]
+            if sh["cons"] is not None and s == sh["cons"]:
+                ins = [buf]
+            if sh["kind"] == "two_readers" and s == 2:
+                ins = [buf]
+        blk = Block([], [t for _ in ins + outs])
+        w = WorkOp(list(blk.args), s)
+        blk.add_op(w)
+        st = pipeline.StageOp(ins, outs, s, Region([blk]))
+        stages.append(st)
+        k = 0
+        for v in ins + outs:
+            v.uses.append(Use(st, k))
+            k += 1
+    pipe = pipeline.PipelineOp(Region([Block([index_op] + stages)]))
+    body.add_op(pipe)
+    body.add_op(scf.YieldOp())
+    loop = scf.ForOp(idx(mk_opresult(0)), idx(mk_opresult(sym.int("ub"))), idx(mk_opresult(1)), [], body)
+    top = Block(([alloc] if alloc is not None else []) + [loop])
+    Region([top])
+    first = [s for s in stages if len(s.operands) > 0][0]
+    return dict(stages=stages, first=first, index_op=index_op, buf=buf, alloc=alloc, pipe=pipe)
+
+
+@contract
+class PipelineDuplicateBuffers_contract:
+    """a buffer written by one stage and read by another is double-buffered (copy selected by iteration parity) ONLY when
+    the reader is the stage directly after the writer; every stage then takes the copy of ITS iteration"""
+    target = "snaxc.transforms.pipeline.pipeline_duplicate_buffers.PipelineDuplicateBuffers.match_and_rewrite"
+    shapes = DUP_SHAPES
+    native = False
+    total = True
+    permissive = True
+    compare_ret = False
+    allowed_raises = ("NotImplementedError",)
+    may_not_return = True  # the shapes the pattern must decline end in NotImplementedError on every path (checked by `raises`)
+
+    def args(sh, sym):
+        return [build_dup(sh, sym), sym.int("i", 0)]
+
+    def run(sh, a):
+        v = a[0]
+        rw = PatternRewriter(v["first"])
+        pdb.PipelineDuplicateBuffers().match_and_rewrite(v["first"], rw)
+        return rw.log
+
+    def raises(sh, a, exc):
+        check("declining (NotImplementedError) is only allowed for buffers the pattern cannot make safe",
+              exc == "NotImplementedError" and (sh["kind"] == "two_readers" or sh["buf"] == "other" or (sh["kind"] == "pair" and sh["cons"] != sh["prod"] + 1)))
+
+    def ensures(sh, a, ret):
+        v, i = a
+        buf = v["buf"]
+        sel = [o for e in ret if e[0] == "replace_op" for o in e[2] if isinstance(o, arith.SelectOp)]
+        if sh["kind"] == "from_index":
+            check("a buffer that already comes from the index op is simply dropped from the stage arguments",
+                  len(sel) == 0 and any(e[0] == "replace_op" and e[1] is v["first"] and len(e[2][0].operands) == 0 for e in ret))
+            return
+        if sh["kind"] in ("only_in", "only_out"):
+            check("a buffer that is only read or only written is passed through the index op unchanged (no copy)",
+                  len(sel) == 0 and not any(e[0] == "insert_op" for e in ret))
+            new_index = [e[2] for e in ret if e[0] == "replace_op" and e[1] is v["index_op"]][0]
+            new_index = new_index[0] if isinstance(new_index, (list, tuple)) else new_index
+            check("the using stage now takes it from the index op", all(s.operands[0] is new_index.results[-1] for s in v["stages"] if len(s.operands) > 0))
+            return
+        # reaching this point without an exception means the buffer was double-buffered
+        check("two copies selected by iteration parity are only used when the reader is the stage DIRECTLY after the writer "
+              "(with a larger distance the copy is overwritten before it is read)", sh["kind"] == "pair" and sh["cons"] == sh["prod"] + 1 and sh["buf"] == "alloc")
+        check("exactly one selection", len(sel) == 1)
+        s0 = sel[0]
+        dup = [o for e in ret if e[0] == "insert_op" and e[2].kind == "after" and e[2].anchor is v["alloc"] for o in e[1]]
+        check("the second copy is a clone of the allocation, placed right behind it", len(dup) == 1 and isinstance(dup[0], memref.AllocOp) and dup[0] is not v["alloc"])
+        cond = s0.operands[0].owner
+        new_index = [e[2] for e in ret if e[0] == "replace_op" and e[1] is v["index_op"]][0]
+        new_index = new_index[0] if isinstance(new_index, (list, tuple)) else new_index
+        rem = cond.operands[1].owner if isinstance(cond, arith.CmpiOp) else None
+        check("the selection is (index mod 2 == 0) ? first copy : second copy, computed from the index op's own argument",
+              isinstance(cond, arith.CmpiOp) and isinstance(rem, arith.RemUIOp) and rem.operands[0] is new_index.body.block.args[0] and den(rem.operands[1]) == 2
+              and den(cond.operands[0]) == 0 and cond.predicate == "eq" and s0.operands[1] is v["alloc"].results[0] and len(dup) == 1 and s0.operands[2] is dup[0].results[0])
+        ny = [o for e in ret if e[0] == "replace_op" for o in e[2] if isinstance(o, pipeline.YieldOp)]
+        check("the index op yields the selected copy as an additional (last) result", len(ny) == 1 and ny[0].operands[-1] is s0.results[0]
+              and len(new_index.results) == len(v["index_op"].results) + 1)
+        check("writer and reader both take the copy from the index op (each for the iteration it works on)",
+              all(s.operands[0] is new_index.results[-1] for s in v["stages"] if len(s.operands) > 0))
+        check("consecutive iterations use different copies (arithmetic)", (i % 2 == 0) != ((i + 1) % 2 == 0))
+
+    def canary(sh, a, ret):
+        check("canary: nothing is ever double-buffered", not any(isinstance(o, arith.SelectOp) for e in ret if e[0] == "replace_op" for o in e[2]))
